@@ -57,14 +57,19 @@ def _handler(case):
     sig = set()
     discharged = False
     smin, smax, eM, pM = F(c["socMin"]), F(c["socMax"]), F(c["eMax"]), F(c["pMax"])
-    for st in case["steps"]:
+    for i_req, st in enumerate(case["steps"]):
         if st["op"] == "upd":
             p, q, h, first, hour = F(st["p"]), F(st["q"]), F(st["h"]), st["first"], st["hour"]
             us = [F(u) for u in st["us"]]
             rng.us = us
             socs = [smin + u * (smax - smin) for u in us]
-            dt = Time(h, TimeUnit.HOUR)
-            fd = dt if first else Time(2 * h + 1, TimeUnit.HOUR)
+            # the step as the simulator hands it over: written in the run's unit (hours, minutes or seconds in turn), the duration of
+            # the disturbance accumulated from Time(0) - which is in hours - by `+=`
+            dt = [Time(h, TimeUnit.HOUR), Time(h * 60, TimeUnit.MINUTE), Time(h * 3600, TimeUnit.SECOND)][(i_req + len(case["steps"])) % 3]
+            fd = Time(F(0))
+            fd += dt
+            if not first:
+                fd += dt; fd += Time(1, TimeUnit.HOUR)
             bus.pprod = bus.qprod = bus.pload = bus.qload = F(0)
             ops.append(f"ev upd {fr(p)} {fr(q)} {fr(h)} {fb(first)} {fr(tab[hour])} {flist(socs)}")
             try:
